@@ -207,7 +207,8 @@ Theorem read_dir_notdir st h n :
   st_fault st = None -> h_closed h = false -> h_names h = None -> is_dir (h_mode h) = false ->
   let '(_, _, l, e) := read_dir st h n in l = [] /\ e = Some (PathErr (h_path h) ENOTDIR).
 Proof.
-  intros NF C N D. unfold read_dir. rewrite C. unfold f_names. rewrite N. unfold snames.
+  intros NF C N D. unfold read_dir. rewrite C. unfold f_names. rewrite N.
+  destruct (h_fresh h); [split; reflexivity|]. unfold snames.
   rewrite (surjective_pairing (tick st)). rewrite (tick_nofault st NF). rewrite D. split; reflexivity.
 Qed.
 
